@@ -61,14 +61,17 @@ var allSpecs = []HarnessSpec{
 	{Prop: "C07", Func: "ZZ_C07_CallLimit", Replay: "native", Twin: true},
 	{Prop: "C07", Func: "ZZ_C07_FailingDynamicVar", POR: true, Replay: "native", Twin: true, Params: map[string]int{"__coarse": 1}},
 	{Prop: "C07", Func: "ZZ_C07_Cycle", POR: true, Replay: "native", Twin: true, Params: map[string]int{"__coarse": 1}},
+	{Prop: "C07", Func: "ZZ_C07_MutualOnce", POR: true, Replay: "native", Params: map[string]int{"__coarse": 1}},
 	{Prop: "C11", Func: "ZZ_C11_DynamicVar", Replay: "native", Twin: true, Params: map[string]int{"__tmplsrc": 1}},
 	{Prop: "C11", Func: "ZZ_C11_Deferred", Replay: "native", Twin: true, Params: map[string]int{"__tmplsrc": 1}},
+	{Prop: "C11", Func: "ZZ_C11_FailingDynamicVar", Replay: "native", Twin: true, Params: map[string]int{"__tmplsrc": 1}},
 	{Prop: "C11", Func: "ZZ_C11_Isolation", Replay: "native", Twin: true, Params: map[string]int{"__tmplsrc": 1}},
 	{Prop: "C13", Func: "ZZ_C13_Guards", POR: true, Replay: "native", Twin: true, Params: map[string]int{"__coarse": 1}},
 	{Prop: "C13", Func: "ZZ_C13_SharedGuard", POR: true, Replay: "native", Twin: true, Params: map[string]int{"__coarse": 1}},
 	{Prop: "C14", Func: "ZZ_C14_Defer", POR: true, Replay: "native", Twin: true, Params: map[string]int{"__coarse": 1}},
 	{Prop: "C08", Pkg: "taskfile/ast", Func: "ZZ_C08_DeepCopy", Replay: "native"},
 	{Prop: "C08", Pkg: "taskfile/ast", Func: "ZZ_C08_Merge", Replay: "native"},
+	{Prop: "C08", Func: "ZZ_C08_RootReference", Replay: "native", Twin: true},
 	{Prop: "C06", Pkg: "taskfile/ast", Func: "ZZ_C06_MergeKeepsFileSettings", Replay: "native", Twin: true},
 	{Prop: "C08", Pkg: "taskfile/ast", Func: "ZZ_C08_IncludedTwice", Replay: "native", Twin: true},
 	{Prop: "C09", Pkg: "taskfile/ast", Func: "ZZ_C09_Merge", Tag: "siblings", POR: true, Replay: "native", Twin: true, Params: map[string]int{"diamond": 0, "__maporder": 1, "__coarse": 1}},
@@ -87,6 +90,7 @@ var allSpecs = []HarnessSpec{
 	{Prop: "C08", Pkg: "taskfile", Func: "ZZ_C09_NodeResolve", Replay: "native"},
 	{Prop: "C20", Pkg: "taskfile", Func: "ZZ_C20_NodeOnlineOffline", Replay: "native", Twin: true},
 	{Prop: "C09", Pkg: "taskfile", Func: "ZZ_C09_Reader", POR: true, Replay: "native", Twin: true, Params: map[string]int{"__coarse": 1}},
+	{Prop: "C10", Pkg: "taskfile/ast", Func: "ZZ_C08_IncludedTwice", Tag: "vars-only", Replay: "native", Params: map[string]int{"vars_only": 1}},
 	{Prop: "C10", Pkg: "", Func: "ZZ_C10_Vars", Replay: "native", Twin: true, Params: map[string]int{"__tmplsrc": 1}},
 	{Prop: "C10", Pkg: "", Func: "ZZ_C10_Env", Replay: "native", Twin: true, Params: map[string]int{"__tmplsrc": 1}},
 	{Prop: "C15", Pkg: "", Func: "ZZ_C15_Resolve", Replay: "native", Twin: true, Params: map[string]int{"tasks": 2, "namelen": 3, "reqlen": 3}, TParams: map[string]int{"tasks": 2, "namelen": 3, "reqlen": 4}},
@@ -104,6 +108,7 @@ var allSpecs = []HarnessSpec{
 	{Prop: "C17", Pkg: "internal/output", Func: "ZZ_C17_Group", POR: true, Replay: "native", Twin: true, Params: map[string]int{"maxchunks": 1, "__coarse": 1}, TParams: map[string]int{"maxchunks": 2}},
 	{Prop: "C17", Pkg: "internal/output", Func: "ZZ_C17_Prefixed", POR: true, Replay: "native", Twin: true, Params: map[string]int{"maxchunks": 1, "__coarse": 1}, TParams: map[string]int{"maxchunks": 2}},
 	{Prop: "C20", Pkg: "taskfile", Func: "ZZ_C20_Cache", Replay: "native", Twin: true, Params: map[string]int{"steps": 2}, TParams: map[string]int{"steps": 3, "slim": 1}},
+	{Prop: "C20", Pkg: "taskfile", Func: "ZZ_C20_Cache", Tag: "three-invocations", Replay: "native", Params: map[string]int{"steps": 3, "slim": 1}},
 	{Prop: "C20", Pkg: "taskfile", Func: "ZZ_C20_Insecure", Replay: "native", Twin: true},
 	{Prop: "C18", Func: "ZZ_C18_Kernel", Tag: "shape=2", POR: true, Replay: "native-race", Twin: true, Params: map[string]int{"shape": 2, "failing": 1, "__coarse": 1, "__race": 1}, TParams: map[string]int{"failing": 2}},
 	{Prop: "C18", Func: "ZZ_C18_Kernel", Tag: "shape=1", POR: true, Replay: "native-race", Params: map[string]int{"shape": 1, "failing": 1, "__coarse": 1, "__race": 1}},
@@ -111,7 +116,9 @@ var allSpecs = []HarnessSpec{
 	{Prop: "C18", Func: "ZZ_C18_DynamicVars", POR: true, Replay: "native-race", Twin: true, Params: map[string]int{"__coarse": 1, "__race": 1}},
 	{Prop: "C18", Func: "ZZ_C18_ShellOptions", POR: true, Replay: "native-race", Twin: true, Params: map[string]int{"__coarse": 1, "__race": 1}},
 	{Prop: "C18", Func: "ZZ_C18_Names", POR: true, Replay: "native-race", Twin: true, Params: map[string]int{"__coarse": 1, "__race": 1}},
+	{Prop: "C18", Func: "ZZ_C18_EmptyVarsCall", POR: true, Replay: "native-race", Twin: true, Params: map[string]int{"__coarse": 1, "__race": 1}},
 	{Prop: "C18", Func: "ZZ_C18_Compile", POR: true, Replay: "native-race", Twin: true, Params: map[string]int{"__coarse": 1, "__race": 1}},
+	{Prop: "C18", Pkg: "internal/output", Func: "ZZ_C18_PipelineWriters", POR: true, Replay: "native-race", Twin: true, Params: map[string]int{"__coarse": 1, "__race": 1}},
 	{Prop: "C18", Pkg: "internal/output", Func: "ZZ_C17_Prefixed", Tag: "race", POR: true, Replay: "native-race", Params: map[string]int{"maxchunks": 1, "__coarse": 1, "__race": 1}},
 	{Prop: "C18", Pkg: "internal/output", Func: "ZZ_C17_Group", Tag: "race", POR: true, Replay: "native-race", Params: map[string]int{"maxchunks": 1, "__coarse": 1, "__race": 1}},
 	{Prop: "C19", Pkg: "args", Func: "ZZ_C19_Get", Replay: "native", Twin: true, TParams: map[string]int{"arglen": 6}},
